@@ -13,10 +13,13 @@ META = {
     "level_text": "Proof (carriers): ARSCResTableEntry.__init__ and is_complex/is_compact/is_weak/is_public decode size, flags, key "
                   "index and -- per flag -- the plain Res_value, the compact (key, type, data) triple or the map entry, for all "
                   "symbolic header words. Bounded (model-based): random resource models (1..2 packages, several types, default and "
-                  "locale/density/version configurations, plain / complex / compact entries, plain, sparse and 16-bit-offset type "
-                  "chunks with holes, references between entries) are serialised by an independent writer and every resource id is "
+                  "locale/density/version/script/variant configurations, plain / complex / compact entries (compact ones of every "
+                  "value type), plain, sparse and 16-bit-offset type chunks with holes, package headers with and without "
+                  "typeIdOffset (0/1/2/5), references between entries) are serialised by an independent writer and every resource id is "
                   "resolved through the real ARSCParser / ResourceResolver and compared with the model, together with the package, "
-                  "locale, type and key-to-id listings.",
+                  "locale, type and key-to-id listings, the text the resolver gives for every typed value, and the "
+                  "configuration-specific queries (a stored configuration returns its entry; an absent one without fallback nothing). "
+                  "Proof: two configurations are the same key iff all their configuration words are equal (sizes 28..64).",
     "trusted": ["independent writer specs/arscwriter.py (ResourceTypes.h)", "string pool decoding (C26)"],
     "explanation": "entry decoding proved on symbolic bytes; chunk walk, value-table construction and resolution bounded (generated "
                    "tables).",
